@@ -1034,7 +1034,9 @@ def _show_f(x, ctx=None):
             inner = ":" + " + ".join(f"{c}*" + "·".join(_show_f(y, None) for y in ff) for ff, nb, c in form[:4])
             if len(form) > 4:
                 inner += "+…"
-        return f"{x[1]}<{x[2]}{inner}>({','.join(_show_i(i) for i in x[3])})" + (f"^{x[4]}" if x[4] != 1 else "")
+        if ctx is None:
+            inner = f":#{x[2]}"
+        return f"{x[1]}<{inner[1:]}>({','.join(_show_i(i) for i in x[3])})" + (f"^{x[4]}" if x[4] != 1 else "")
 
 
 # ------------------------------------------------------------------ denominators
